@@ -53,7 +53,7 @@ from psyclone.psyir.nodes import Routine, Assignment, Reference, Literal, \
     Call, Container, BinaryOperation, IntrinsicCall, ArrayReference, Range
 from psyclone.psyir.symbols import SymbolTable, ImportInterface, Symbol, \
     ContainerSymbol, ScalarType, ArrayType, RoutineSymbol, DataSymbol, \
-    INTEGER_TYPE, UnresolvedType, UnsupportedType
+    INTEGER_TYPE, BOOLEAN_TYPE, UnresolvedType, UnsupportedType
 
 
 #: The extent we will allocate to each dimension of arrays used in the
@@ -531,9 +531,25 @@ def generate_adjoint_test(tl_psyir, ad_psyir,
         # all elements of an array passed to it so we don't have to take any
         # special action.
         # TODO #1345 make this code language agnostic.
-        statements.append(
-            freader.psyir_from_statement(f"call random_number({sym.name})",
-                                         symbol_table))
+        intrinsic = sym.datatype.intrinsic
+        if intrinsic == ScalarType.Intrinsic.REAL:
+            statements.append(
+                freader.psyir_from_statement(
+                    f"call random_number({sym.name})", symbol_table))
+        elif intrinsic == ScalarType.Intrinsic.INTEGER:
+            # random_number only accepts real arguments so passive
+            # integer arguments are given a fixed value.
+            statements.append(
+                Assignment.create(Reference(sym), Literal("1", INTEGER_TYPE)))
+        elif intrinsic == ScalarType.Intrinsic.BOOLEAN:
+            statements.append(
+                Assignment.create(Reference(sym),
+                                  Literal("true", BOOLEAN_TYPE)))
+        else:
+            raise NotImplementedError(
+                f"Kernel argument '{sym.name}' is of type '{intrinsic.name}' "
+                f"but the test harness only supports real, integer and "
+                f"logical arguments.")
         # Keep a copy of the value of this argument.
         statements.append(
             Assignment.create(Reference(sym_record), Reference(sym)))
@@ -546,8 +562,11 @@ def generate_adjoint_test(tl_psyir, ad_psyir,
     statements[-1].preceding_comment = "Call the tangent-linear kernel"
 
     # Compute the inner product of the result of the TL kernel
-    stmt_list = _create_inner_product(inner1, [(sym, sym) for sym in inputs],
-                                      symbol_table)
+    # Only real-valued arguments contribute to the inner products.
+    real_pairs = [(sym, copy) for sym, copy in zip(inputs, input_copies)
+                  if sym.datatype.intrinsic == ScalarType.Intrinsic.REAL]
+    stmt_list = _create_inner_product(
+        inner1, [(sym, sym) for sym, _ in real_pairs], symbol_table)
     stmt_list[0].preceding_comment = ("Compute the inner product of the "
                                       "results of the tangent-linear kernel")
     statements.extend(stmt_list)
@@ -558,8 +577,7 @@ def generate_adjoint_test(tl_psyir, ad_psyir,
     statements[-1].preceding_comment = "Call the adjoint of the kernel"
 
     # Compute inner product of result of adjoint kernel with original inputs
-    stmt_list = _create_inner_product(inner2, zip(inputs, input_copies),
-                                      symbol_table)
+    stmt_list = _create_inner_product(inner2, real_pairs, symbol_table)
     stmt_list[0].preceding_comment = (
         "Compute inner product of results of adjoint kernel with the "
         "original inputs to the tangent-linear kernel")
